@@ -79,24 +79,34 @@ def regexTable : Sexp → List (String × String × Option Bool)
     | _ => none
   | _ => []
 
-/-- exact sub-model of regexp matching for the pattern class the generators use:
-    an optional `^`, literal letters/digits/blanks, an optional `$` -/
+/-- one item of a pattern of the class below: a literal rune, `^` (beginning of the text) or `$` (end of the text) -/
+inductive RxItem where
+  | lit (c : Char)
+  | bol
+  | eol
+
+/-- the items match a prefix of `rest`; `atStart`: nothing of the text has been consumed yet -/
+def rxMatchAt : List RxItem → List Char → Bool → Bool
+  | [], _, _ => true
+  | .bol :: is, rest, atStart => atStart && rxMatchAt is rest atStart
+  | .eol :: is, rest, atStart => rest.isEmpty && rxMatchAt is rest atStart
+  | .lit c :: is, x :: xs, _ => x == c && rxMatchAt is xs false
+  | .lit _ :: _, [], _ => false
+
+/-- unanchored search: the items match at some position of the text -/
+def rxSearch (items : List RxItem) : List Char → Bool → Bool
+  | [], atStart => rxMatchAt items [] atStart
+  | x :: xs, atStart => rxMatchAt items (x :: xs) atStart || rxSearch items xs false
+
+/-- exact sub-model of regexp matching (Go's RE2 without flags) for the pattern class the generators can produce,
+    also by concatenating strings at run time: ASCII literal runes and the assertions `^` / `$` at ANY position
+    (`bc$bc$` is a valid pattern that matches nothing; it is not a pattern that fails to compile).  Any other
+    metacharacter: `none`, and the harness supplies Go's answer or does not generate the pattern. -/
 def simpleRegex (pat subj : String) : Option Bool :=
   let cs := pat.toList
-  let (anchS, cs) := match cs with
-    | '^' :: rest => (true, rest)
-    | _ => (false, cs)
-  let (anchE, cs) := match cs.reverse with
-    | '$' :: rest => (true, rest.reverse)
-    | _ => (false, cs)
-  -- literal characters: anything that is not a regexp metacharacter (and ASCII, so that bytes = runes)
-  if cs.all (fun c => c.toNat < 128 && !("\\.+*?()|[]{}^$".toList.contains c)) then
-    let lit := String.ofList cs
-    some (match anchS, anchE with
-      | true, true => subj == lit
-      | true, false => strHasPrefix subj lit
-      | false, true => strHasSuffix subj lit
-      | false, false => strContains subj lit)
+  if cs.all (fun c => c.toNat < 128 && !("\\.+*?()|[]{}".toList.contains c)) then
+    let items := cs.map fun c => if c == '^' then RxItem.bol else if c == '$' then RxItem.eol else RxItem.lit c
+    some (rxSearch items subj.toList true)
   else none
 
 def mkWorld (rx : List (String × String × Option Bool)) : World :=
